@@ -262,6 +262,24 @@ fn check_build(input: &(u8, u16, u8), case: &mut Case) -> Result<(), Fail> {
     let mut w = super::c04::ChunkedWriter { inner: std::io::Cursor::new(Vec::new()), chunk: 3 };
     lib("write_compressed_to", || p.write_compressed_to(&mut w))?.map_err(|e| Fail::new("c08:build-failed", format!("{:?}", e)))?;
     ensure!(w.inner.get_ref()[..] == outc[..], "c08:build-header-short-writes", "a writer accepting three bytes per call receives a different compressed message");
+    // a message appended to a stream that already holds something (a two-octet length prefix, an earlier message,
+    // exactly twelve octets): its header goes to the first twelve octets of the message itself, and what was
+    // there before stays as it was
+    for k in [2usize, 12, 12 + outc.len(), 40] {
+        for compressed in [false, true] {
+            let prefix: Vec<u8> = (0..k).map(|j| 0xA0u8 ^ j as u8).collect();
+            let mut cur = std::io::Cursor::new(prefix.clone());
+            cur.set_position(k as u64);
+            let what = if compressed { "write_compressed_to" } else { "write_to" };
+            let r = if compressed { lib(what, || p.write_compressed_to(&mut cur))? } else { lib(what, || p.write_to(&mut cur))? };
+            r.map_err(|e| Fail::new("c08:build-failed", format!("{} at stream position {}: {:?}", what, k, e)))?;
+            let v = cur.into_inner();
+            ensure!(v.len() >= k + 12, "c08:build-header-at-offset", "{} at stream position {}: only {} octets in the stream", what, k, v.len());
+            ensure!(v[k..k + 12] == out[..12], "c08:build-header-at-offset", "{} at stream position {}: the message starts with {} instead of the header {}", what, k, hex(&v[k..k + 12]), hex(&out[..12]));
+            ensure!(v[..k] == prefix[..], "c08:build-header-at-offset", "{} at stream position {} changed octets before the message: {}", what, k, hex(&v[..k.min(16)]));
+        }
+    }
+    case.extra_evals = 8;
     // parse back
     let back = parse(&out)?.map_err(|e| Fail::new("c08:build-unparseable", format!("{:?}", e)))?;
     let o = observe(&back);
